@@ -3,6 +3,7 @@ from __future__ import annotations
 
 import io
 import json
+import time
 
 import core
 import treeops as T
@@ -27,6 +28,8 @@ def opaque_pool(w, k):
         return w.docs()
     if k in ("composite", "numpy", "topil"):
         return w.docs() + X
+    if k in T.FILTERS:
+        return w.docs() + w.groups() + X[:1]
     if k in ("find", "iterate"):
         return C
     if k in ("mask_effects", "clip_layers"):
@@ -109,16 +112,40 @@ def sandwiches(recipe, rng, n_prefix=2):
                 tail.append(("clip", x, not bool(w.objs[x].clipping_layer)))
         if tail:
             tails.append(tail)
+    # ... and structural edits as deep in the tree as possible: what a call on the document or on a group IN BETWEEN
+    # cached must not survive an edit further down (ids of objects the tail creates are not used by the calls)
+    att = T.attached(w)
+    deep = sorted((c for c in w.conts() if c in att), key=lambda c: -depth_of(w, c))
+    for g in deep[:2]:
+        kids = [w.idof(l) for l in w.objs[g]._layers]
+        det = [x for x in w.detached() if not isinstance(w.objs[x], T.Group)]
+        tail = []
+        if kids:
+            tail.append(("delete", kids[0]) if rng.random() < 0.5 else ("move", kids[0], w.docs()[0]))
+        if det:
+            tail.append(("append", g, det[0]))
+        else:
+            tail.append(("newgroup", g))
+        if tail:
+            tails.append(tail)
     d = w.docs()[0]
-    calls = [("opaque", k, d) for k in ("save", "composite", "layer_composite", "topil", "numpy", "find", "pretty")]
+    calls = [("opaque", k, d) for k in ("save", "composite", "layer_composite", "topil", "numpy", "pretty")]
+    calls += [("opaque", k, d) for k in T.FILTERS]
     calls += [("obs", "bbox", d), ("obs", "desc", d)]
     some = [X[0], X[-1]]
     calls += [("opaque", k, x) for k in ("clip_layers", "composite", "mask_effects") for x in dict.fromkeys(some)]
-    calls += [("obs", "bbox", g) for g in w.groups()[:2]]
+    groups = [g for g in w.groups() if g in att]
+    calls += [("obs", "bbox", g) for g in groups[:2]]
+    calls += [("opaque", "find", c) for c in [d] + groups]
+    calls += [("opaque", "composite_all", g) for g in groups[:2]]
+    # every container asked at once (the same history, saturated with one kind of read-only call)
+    calls += [[("opaque", "find", c) for c in [d] + groups],
+              [("opaque", "composite_all", c) for c in [d] + groups]]
+    calls = [c if isinstance(c, list) else [c] for c in calls]
     for tail in tails:
         # the call in the middle ...
         for c in calls:
-            yield prefix + tail, prefix + [c] + tail
+            yield prefix + tail, prefix + c + tail
         # ... and, for edits of the clipping flag, read-only calls AFTER the edit (the answers afterwards must
         # not depend on which of them came first)
         after = [("opaque", "save", d), ("obs", "bbox", d), ("obs", "desc", d)]
@@ -128,17 +155,14 @@ def sandwiches(recipe, rng, n_prefix=2):
         yield prefix + tail, prefix + tail + after[1:]
 
 
-def guarded(recipe, ops):
-    """the history up to (excluding) the first inserting operation whose arguments are already listed: beyond it
-    the tree is ill-formed (known finding of C10) and the freshness / purity statements do not apply"""
-    w = T.build(recipe)
-    out = []
-    for op in ops:
-        if op[0] in T.INSERTING and T.already_listed(op, w.listed()):
-            break
-        T.apply_real(w, op)
-        out.append(op)
-    return out
+def depth_of(w, c):
+    n, o = 0, w.objs[c]
+    while isinstance(o, T.Layer) and getattr(o, "_parent", None) is not None and n < 100:
+        o, n = o._parent, n + 1
+    return n
+
+
+guarded = T.guarded
 
 
 def _img(r):
@@ -168,8 +192,17 @@ def battery(w):
         ask((i, "size"), lambda: tuple(o.size))
         ask((i, "visible"), lambda: bool(o.is_visible()))
         ask((i, "desc"), lambda: [w.idof(x) for x in o.descendants()] if hasattr(o, "descendants") else None)
+        if isinstance(o, T.GroupMixin):
+            ask((i, "find"), lambda: T.find_answers(w, o))
+            try:
+                ans[(i, "find-walk")] = T.walk_answers(w, o)
+            except Exception:  # noqa
+                ans[(i, "find-walk")] = None
         if isinstance(o, T.Layer):
             ask((i, "clip_layers"), lambda: ([w.idof(x) for x in o.clip_layers], bool(o.clipping_layer)))
+    for i in docs + w.groups():
+        for k in ("composite_all", "composite_shown") if i in docs else ("composite_all",):
+            ask((i, k), lambda: T.opaque_answer(w, k, i))
     for d in docs:
         psd = w.objs[d]
         ask((d, "composite-again"), lambda: _img(psd.composite(force=True)))
@@ -186,28 +219,12 @@ def battery(w):
 
 
 TWICE = (("composite", "composite-again"), ("saved", "saved-again"))
-DOC_PICTURE = ("composite", "composite-again", "composite-default", "saved", "saved-again", "topil")
+DOC_PICTURE = ("composite", "composite-again", "composite-default", "saved", "saved-again", "topil", "composite_all",
+               "composite_shown")
 
 
 def _is_err(v):
     return isinstance(v, str) and v.startswith("err:")
-
-
-def stale_detached(w, i):
-    """a group outside every document that has, or lies below a group that has, a parent pointer naming a container
-    which does not list it (is_visible() follows that pointer, the invalidation cannot come back along it)"""
-    o = w.objs[i]
-    if not isinstance(o, T.Group) or i in T.attached(w):
-        return False
-    n = 0
-    while isinstance(o, T.Layer) and n < 200:
-        p = getattr(o, "_parent", None)
-        if p is None:
-            return False
-        if not any(x is o for x in getattr(p, "_layers", [])):
-            return True
-        o, n = p, n + 1
-    return False
 
 
 def emptied(w, d):
@@ -217,12 +234,21 @@ def emptied(w, d):
 
 
 
+_PLAIN: dict = {}
+
+
 def purity_problems(recipe, plain, observed):
     """run the history without and with read-only calls; returns [(signature, what)]"""
     kw = dict(check_inv=False, check_shadow=False, check_fresh=False, stop_on_problem=False)
-    a = T.run_history(recipe, plain, **kw)
+    key = (tuple(recipe), tuple(plain))
+    if key not in _PLAIN:                # the same plain history is paired with many observed ones
+        if len(_PLAIN) > 400:
+            _PLAIN.clear()
+        a = T.run_history(recipe, plain, **kw)
+        _PLAIN[key] = (a, battery(a.world))
+    a, ba = _PLAIN[key]
     b = T.run_history(recipe, observed, **kw)
-    ba, bb = battery(a.world), battery(b.world)
+    bb = battery(b.world)
     out = []
     for tag, B in (("without", ba), ("with", bb)):
         for first, second in TWICE:
@@ -237,7 +263,14 @@ def purity_problems(recipe, plain, observed):
             if name in ("topil", "composite-default") and _is_err(ba.get((i, "saved"))) and _is_err(bb.get((i, "saved"))):
                 continue      # the stored image is compared after the battery's save(): here that save() raises
             sig = "C14/impure/%s" % name.replace("-again", "")
-            if name in ("bbox", "size") and stale_detached(b.world, i):
+            if name == "find":
+                fresh = bb.get((i, "find-walk"))
+                bad = [(x, y) for x, y in zip(bb.get(k) or [], fresh or []) if x != y] if not _is_err(bb.get(k)) else []
+                out.append((sig, "find / findall from container %d differ when read-only calls are interleaved; with them "
+                            "(name, find, findall) = %r, an independent walk of the lists gives %r"
+                            % (i, [x for x, _ in bad][:3] or _short(bb.get(k)), [y for _, y in bad][:3] or _short(ba[k]))))
+                continue
+            if name in ("bbox", "size", "composite_all") and T.stale_detached(b.world, i):     # (rendered inside its box)
                 sig = "C14/bbox-stale/detached-node-with-stale-parent"
             elif name in DOC_PICTURE and emptied(a.world, i) and emptied(b.world, i) and any(
                     o[0] == "opaque" and o[1] == "save" and o[2] == i for o in observed):
@@ -288,6 +321,12 @@ def run(ctx: core.Run):
     ctx.model_coverage = T.MODEL_COVERAGE
     rng = ctx.rng
     traces = []
+    phase, t_last = {}, [time.time()]
+
+    def lap(name):
+        phase[name] = round(time.time() - t_last[0], 1)
+        t_last[0] = time.time()
+    ctx.extra["phase_s"] = phase
     # 1. corpus: the witnesses of the Lean counterexamples, replayed on the real code
     for recipe, ops in corpus("C14"):
         traces.append(T.run_history(recipe, ops, check_inv=False))
@@ -306,6 +345,23 @@ def run(ctx: core.Run):
                 seq += [("obs", "repr", c) for c in w0.conts()[:3]]
             traces.append(T.run_history(recipe, seq, check_inv=False, check_shadow=False))
         ctx.hist("exhaustive_histories", "%s depth %d with reads" % (recipe[0], depth), len(hs))
+    lap("exhaustive")
+    # 2b. visibility x position: every history of <= 2 operations that hide / show groups and move groups between
+    #     containers (inherited visibility: the box of a group depends on its ancestors), every container read (bbox)
+    #     before the first and (repr) after every operation - boxes cached under a hidden ancestor included
+    vm_pairs = []
+    for recipe, lim in ((("hid", "RGB", 8), 500 if ctx.quick else 6000), (("nest", "RGB", 8), 150 if ctx.quick else 3000)):
+        w0 = T.build(recipe)
+        hs = T.visibility_move_histories(recipe, 1) + T.visibility_move_histories(recipe, 2, limit=lim, rng=rng)
+        if not ctx.quick:
+            hs += T.visibility_move_histories(recipe, 3, limit=lim, rng=rng)
+        for h in hs:
+            traces.append(T.run_history(recipe, T.read_everything(w0, h), check_inv=False, check_shadow=False))
+        for h in rng.sample(hs, min(len(hs), 12 if ctx.quick else 150)):
+            h = guarded(recipe, h)
+            vm_pairs.append((recipe, h, T.read_everything(w0, h, kinds=("bbox", "repr")), "visibility-move"))
+        ctx.hist("exhaustive_histories", "%s visibility x position with reads" % recipe[0], len(hs))
+    lap("visibility-move")
     # 3. random walks with an observe transition at (almost) every step
     recipes = T.walk_recipes()
     n_walks, max_len = (150, 12) if ctx.quick else (1200, 60)
@@ -314,33 +370,41 @@ def run(ctx: core.Run):
         ops = T.random_walk(recipe, rng, rng.randrange(3, max_len + 1), p_unguarded=0.02, p_attr=0.3)
         opaque_ok = recipe[0] != "fixture" or recipe[1] in ("clipping-mask.psd", "group.psd")
         traces.append(T.run_history(recipe, interleave(recipe, ops, rng, opaque_ok, per_step=1), check_inv=False))
+    lap("walks")
     T.compare_with_model(ctx, traces, what="C14")
+    lap("model")
     T.coverage(ctx, traces)
     T.report(ctx, traces, props=("C14",))
+    lap("report")
     # 4. purity: answers and saved bytes with and without read-only calls
     #    (a) random histories with random read-only calls interleaved; (b) sandwiches: every kind of read-only
     #    call between a structural edit and attribute edits, and after them
     n_pure = 40 if ctx.quick else 400
-    n_sand = 8 if ctx.quick else 60
+    n_sand = 6 if ctx.quick else 40
     pure_recipes = [("small", "L", 8), ("flat", "RGB", 8), ("nest", "RGB", 8), ("nest", "L", 8), ("two", "RGB", 8, "L"),
                     ("fixture", "clipping-mask.psd"), ("fixture", "group.psd"), ("fixture", "16bit5x5.psd"),
-                    ("nest", "CMYK", 8), ("nest", "RGB", 16), ("board", "RGB", 8), ("dup", "RGB", 8)]
-    sand_recipes = [("nest", "RGB", 8), ("flat", "RGB", 8), ("board", "RGB", 8), ("nest", "L", 8), ("small", "L", 8),
-                    ("nest", "CMYK", 8), ("nest", "RGB", 16), ("two", "RGB", 8, "L")]
+                    ("nest", "CMYK", 8), ("nest", "RGB", 16), ("board", "RGB", 8), ("dup", "RGB", 8), ("hid", "RGB", 8)]
+    sand_recipes = [("flat", "RGB", 8), ("board", "RGB", 8), ("nest", "L", 8), ("small", "L", 8), ("nest", "CMYK", 8),
+                    ("nest", "RGB", 16), ("two", "RGB", 8, "L"), ("dup", "RGB", 8)]
+    off = rng.randrange(len(sand_recipes))
+    # nested groups / hidden ancestors always, the other trees in a seeded rotation
+    sand_recipes = [("nest", "RGB", 8), ("hid", "RGB", 8)] + sand_recipes[off:] + sand_recipes[:off]
     pairs = []
     cp = core.VERIF / "harness" / "corpus" / "C14.json"
     for c in (json.loads(cp.read_text()) if cp.exists() else []):
         if "with_observations" in c:
             pairs.append((tuple(c["recipe"]), T.ops_from_json(c["ops"]), T.ops_from_json(c["with_observations"]), "corpus"))
+    # boundary cases first: sandwiches, then the visibility x position family, then random interleavings
+    for k in range(n_sand):
+        recipe = sand_recipes[k % len(sand_recipes)]
+        for plain, observed in sandwiches(recipe, rng):
+            pairs.append((recipe, plain, observed, "sandwich"))
+    pairs += vm_pairs
     for k in range(n_pure):
         recipe = pure_recipes[k % len(pure_recipes)]
         ops = guarded(recipe, T.random_walk(recipe, rng, rng.randrange(2, (10 if ctx.quick else 30)),
                                             p_unguarded=0.0, p_attr=0.35))
         pairs.append((recipe, ops, interleave(recipe, ops, rng, True), "random"))
-    for k in range(n_sand):
-        recipe = sand_recipes[k % len(sand_recipes)]
-        for plain, observed in sandwiches(recipe, rng):
-            pairs.append((recipe, plain, observed, "sandwich"))
     seen = {}
     for recipe, plain, observed, how in pairs:
         probs = purity_problems(recipe, plain, observed)
@@ -368,19 +432,26 @@ def run(ctx: core.Run):
             if f["signature"] == sig:
                 f["count"] = dct["count"]
     ctx.extra["purity_cases"] = len(pairs)
+    lap("purity")
     for t in traces[:n_corpus] + traces[-2:]:
         ctx.sample({"recipe": list(t.world.recipe), "ops": [T.op_str(o) for o in t.ops[:10]], "outs": t.outs[:10]})
     ctx.rule = ("a case is one (initial tree, history of edits and read-only calls); non-trivial = at least one operation. "
                 "After EVERY step every cached box of the object graph is compared with a fresh Group.extract_bbox and the "
                 "full dump (caches included) with the model. Exhaustive: all histories of <= 2 candidate operations "
-                "(structure edits, visible, left) with bbox / repr reads around each; random: %d walks of <= %d edits with "
-                "read-only calls (bbox, size, repr, descendants, len, is_visible, composite, numpy, topil, save to a throw-away "
-                "buffer, find, iteration, clip_layers, mask / effects; each opaque call made twice in a row and the two "
-                "answers compared) interleaved; purity: %d histories (random interleavings + every kind of read-only call "
-                "between a structural edit and attribute edits - visible, offset, opacity, clipping flag - and after them) "
-                "run with and without the read-only calls, later answers (composite first and again at the end, bbox, size, "
-                "is_visible, descendants, clip_layers, default composite, topil) and the bytes written by save() (twice) "
-                "compared." % (n_walks, max_len, len(pairs)))
+                "(structure edits, visible, left) with bbox / repr reads around each; the visibility x position family (hide / "
+                "show every group, move every group to every other container, detach / re-attach; trees with groups below a "
+                "hidden and below a visible group) with every container read before and after each operation; random: %d walks "
+                "of <= %d edits with read-only calls (bbox, size, repr, descendants, len, is_visible, composite, composite with "
+                "a custom layer_filter - the same function object reused, an equivalent of the default, a fresh lambda -, numpy, "
+                "topil, save to a throw-away buffer, find / findall - compared with a walk of the lists -, iteration, "
+                "clip_layers, mask / effects; each opaque call made twice in a row and the two answers compared) interleaved; "
+                "purity: %d histories (every kind of read-only call - on the document, on groups, find / filtered composite "
+                "on EVERY container at once - between a structural edit and attribute edits (visible, offset, opacity, clipping "
+                "flag) or structural edits as deep in the tree as possible, and after them; visibility x position histories "
+                "with and without reads; random interleavings) run with and without the read-only calls, later answers "
+                "(composite first and again at the end, bbox, size, is_visible, descendants, find / findall of every name in use "
+                "and an absent one from EVERY container, clip_layers, filtered composite of the document and of every group, "
+                "default composite, topil) and the bytes written by save() (twice) compared." % (n_walks, max_len, len(pairs)))
     ctx.notes += NOTES
     if ctx.tier == "thorough":
         ctx.recheck(["PsdVerif.Props.C14"])
@@ -396,6 +467,9 @@ NOTES = [
     "stated in DESIGN, not proved: 'saved bytes unchanged by observations' (observable of DESIGN includes the bytes "
     "save() writes; proved: nothing but caches changes, and caches stay fresh; the bytes are compared by the harness); "
     "lazily created mask / vector mask / origination / effects views and ShapeLayer._bbox are not modelled",
+    "memoised answers the model does not know (a name index, a per-filter group box, ...) are caught only by the search: "
+    "purity pairs (with / without the read-only call before an edit), the same call repeated, find compared with a walk of "
+    "the lists; the model's caches are the _bbox fields only",
     "save() is documented to refresh the stored merged image when the structure was edited; topil() (the stored image) and "
     "the default composite() are therefore compared after the battery's own save(), the forced rendering before it. A "
     "document that was EMPTIED is rendered from that stored image, so there an earlier save() shows through (known finding "
